@@ -46,7 +46,7 @@ CLAIMED = {
  "C06": dict(text="Full on the model for linear alternatives: C06_fits_iff (the decidable 'fits' is exactly: some instance of the alternative is a supertype of the argument), C06_match3_eliminates "
         "(the three-valued matcher answers 'definitely not' exactly when the argument does not fit), C06_filter_keeps_fitting / C06_accept_iff_fits_filter / C06_violation_iff_no_fit (the elimination "
         "constraint is violated iff no alternative fits), C06_bounded_var* (the base-type case through the variable's bounds, repaired D3/D22), C06_fits_iff_needs_linear (counterexample for non-linear "
-        "alternatives). The unique-fit result and the 'between' clause are decided by correspondence + oracle on all concrete arguments of depth <= 2.",
+        "alternatives). The unique-fit result and the 'between' clause are decided by correspondence + oracle on all concrete arguments of depth <= 2. Beyond linear alternatives (Props/C06Gen.lean, C06g_*, 26): exact characterisation of what fulfill keeps, acceptance iff fit for unipolar alternatives (nested, several variables, repeated variables of one polarity), uniqueness / between clauses for one fulfill call; bipolar alternatives (a variable in both polarities, outside the property's quantifier) are accepted without a fit: proved on the model, replayed on the implementation, recorded in DESIGN.md.",
         technique="Lean 4 proof (polarity-indexed fits relation, fuel induction over the matcher) + model/implementation correspondence check",
         ref="6/C06"),
  "C07": dict(text="On the graph model: C07_queried_are_emitted / C07_membership_in_vocabulary (predicate names re-extracted from graph.py, query.py and the vocabulary on every run), C07_op_node, "
@@ -130,7 +130,7 @@ CLAIMED = {
         "C12_output_marked / C12_inputs_marked / C12_class, C12_inline_structure + C12_addExpr_shared_transparent (a tool's inputs denote the producers' whole expressions; the workflow graph is the "
         "graph of the inlined expression with sharing), C12_no_passthrough_link / _flat, C09_workflow_graph. C12_final_exprs / C12_expr_once(_passthrough) (the memo table under re-fixing without passthrough). Partial: typing inside the tools is inherited from the inference model through "
         "correspondence; 'each source gets the most general type acceptable to all its uses' is decided by an oracle (acceptable to every tool, not below an independently computed valid typing, no bound lost); "
-        "workflows whose sources have function types are not generated (aliasing of type objects is not modelled); the RDF (WorkflowGraph) front end is decided by the oracle (isomorphic to the in-memory form).",
+        "workflows whose sources have function types are not generated (aliasing of type objects is not modelled); the RDF (WorkflowGraph) front end is decided by the oracle (isomorphic to the in-memory form). Props/C12Order.lean: add_workflow depends on source_types only up to an explicit equivalence, hence C12_order_unannotated (every listing of a workflow without annotations gives the same graph, no hypothesis on source_types) and C12_order_checked (any pair of listings passing an evaluable test).",
         technique="Lean 4 proof (permutation invariance, memo-table invariants, step-sequence invariants of add_workflow) + model/implementation correspondence check (graph isomorphism)",
         ref="6/C12"),
  "C13": dict(text="Structure full on the model (annotation-free renderings): C13_parse_spine (the stack machine started on any stack consumes the rendering of a "
@@ -144,7 +144,7 @@ CLAIMED = {
         "assertion/index/value error site, for any total expression builder), C17_parseType_consumes, C17_parseExpr_fuel_irrelevant (termination: the model's fuel "
         "never runs out, one token at least is consumed per step). Engine partial: instantiate/apply/unify/fix with constraints are tied by correspondence on "
         "constraint-heavy schemas and checked by the oracle (exception class in the declared families, 5 s bound per case); the interpreter recursion limit is outside "
-        "the model (known finding D11). Two assertion failures found on the unchanged tree (D25 under a re-check order, D29 with a bare-variable alternative) were repaired.",
+        "the model (known finding D11). Two assertion failures found on the unchanged tree (D25 under a re-check order, D29 with a bare-variable alternative) were repaired. Engine (Props/C17Engine.lean, C17e_*, 37): from every store with finite binding chains (all reachable stores) no function of the unifier, instantiate or apply returns an internal error, for any language, schema, arguments and fuel; the hypothesis is exact (on a cyclic store every assertion fires).",
         technique="Lean 4 proof (loop invariants on the parser stacks, suffix/fuel argument) + model/implementation correspondence check + declared-error oracle",
         ref="6/C17"),
  "C20": dict(text="Full for the repaired Bag.add: over any decidable partial order C20_union_specific/general (kept = minimal/maximal elements), "
